@@ -79,7 +79,7 @@ def gaps_of(ctx: Ctx, g, maxabs: float) -> dict:
         return NOGAP
 
 
-def run_trace(tid, n, cls, mode, hidden_f, objs, rng, length, with_gaps, ops_weights, reveal_only=False):
+def run_trace(tid, n, cls, mode, hidden_f, objs, rng, length, with_gaps, ops_weights, reveal_only=False, script=None):
     """hidden_f: list of floats (true game).  Returns the trace dict."""
     maxabs = max(abs(x) for x in hidden_f) if hidden_f else 1.0
     if mode == "exact":
@@ -128,7 +128,7 @@ def run_trace(tid, n, cls, mode, hidden_f, objs, rng, length, with_gaps, ops_wei
     prev_op = "init"
     known = set(minimal)
     since_compute = 0
-    for step in range(length):
+    for step in range(length if script is None else len(script)):
         unknown = [c for c in expl if c not in known]
         revealed = [c for c in expl if c in known]
         choices = []
@@ -139,29 +139,34 @@ def run_trace(tid, n, cls, mode, hidden_f, objs, rng, length, with_gaps, ops_wei
         if not reveal_only:
             choices += ["reset"] * ops_weights[2]
         choices += ["compute"] * ops_weights[3]
-        op = rng.choice(choices)
+        op = rng.choice(choices) if script is None else "compute"
         if since_compute >= 3 or step == length - 1 or (reveal_only and prev_op != "compute"):
             op = "compute"
         if reveal_only and prev_op == "compute" and unknown:
             op = "reveal"
+        if script is not None:
+            op = script[step]["op"]
         ev = {"op": op, "c": 0, "val": 0, "cs": [], "vals": []}
         extra = None
         if op == "reveal":
-            c = rng.choice(unknown)
+            c = rng.choice(unknown) if script is None else script[step]["c"]
             apply_all(lambda g: g.reveal_value(hidden_f[c], Coalition(c)))
             known.add(c)
             ev["c"], ev["val"] = c, ctx.num(hidden_f[c])
             since_compute += 1
         elif op == "unreveal":
-            c = rng.choice(revealed)
+            c = rng.choice(revealed) if script is None else script[step]["c"]
             apply_all(lambda g: g.unreveal_value(Coalition(c)))
             known.discard(c)
             ev["c"] = c
             since_compute += 1
         elif op == "reset":
-            ks = [c for c in expl if rng.random() < 0.4]
-            cs = minimal + ks
-            rng.shuffle(cs)
+            if script is None:
+                ks = [c for c in expl if rng.random() < 0.4]
+                cs = minimal + ks
+                rng.shuffle(cs)
+            else:
+                cs = list(script[step]["cs"])
             apply_all(lambda g: g.set_known_values([hidden_f[c] for c in cs], [Coalition(c) for c in cs]))
             known = set(cs)
             ev["cs"], ev["vals"] = cs, [ctx.num(hidden_f[c]) for c in cs]
@@ -204,14 +209,33 @@ def main():
     ap = argparse.ArgumentParser()
     ap.add_argument("--out", required=True)
     ap.add_argument("--seed", type=int, default=0)
-    ap.add_argument("--family", required=True, help="sa | sam | any | float_sa | float_sam | paths_sa | paths_sam")
-    ap.add_argument("--ns", required=True)
+    ap.add_argument("--family", default="replay", help="sa | sam | any | float_sa | float_sam | paths_sa | paths_sam")
+    ap.add_argument("--ns", default="3")
     ap.add_argument("--count", type=int, default=20, help="traces per n")
     ap.add_argument("--length", type=int, default=14)
     ap.add_argument("--gaps", type=int, default=0)
     ap.add_argument("--reps", default="0,1,2", help="SAM repetition counts")
     ap.add_argument("--interleave", type=int, default=0, help="advance all traces (all n) in one interpreter in random interleaving")
+    ap.add_argument("--replay", default=None, help="JSON {behaviours:[{n, cls, hidden, objs, script:[{op,c,cs}]}]} to execute instead of random histories")
     a = ap.parse_args()
+    if a.replay:
+        import json
+        spec = json.load(open(a.replay))
+        groups = {}
+        for i, b in enumerate(spec["behaviours"]):
+            gen = run_trace(b.get("tid", i + 1), b["n"], b["cls"], "exact", [float(x) for x in b["hidden"]], b["objs"], None, 0,
+                            bool(a.gaps), (1, 1, 1, 1), False, script=b["script"])
+            tr = [x for x in gen if x is not None][0]
+            groups.setdefault(b["n"], []).append(tr)
+        files = []
+        for n, traces in sorted(groups.items()):
+            path = f"{a.out}_replay_n{n}.json"
+            D.dump(path, {"traces": traces})
+            files.append({"n": n, "path": path, "traces": len(traces), "events": sum(len(t["events"]) for t in traces),
+                          "sample": {"tid": traces[0]["tid"], "cls": traces[0]["cls"], "hidden": traces[0]["hidden"],
+                                     "ops": [[e["op"], e["c"]] for e in traces[0]["events"]][:12]}})
+        D.finish({"files": files, "events": sum(f["events"] for f in files)})
+        return
     rng = random.Random(a.seed * 7919 + hash(a.family) % 1000)
     reps = [int(x) for x in a.reps.split(",")]
     files = []
